@@ -223,6 +223,14 @@ def r174(repo, ctx):
                 nm = U.call_name(e)
                 if nm == 'np.sum':
                     return S(sp.simplify(tr(e.args[0])))
+                if nm == 'np.average' and e.args:
+                    # np.average(a, weights=w) = sum(w * a) / sum(w): the weights are normalised
+                    w = [k.value for k in e.keywords if k.arg == 'weights'] or ([e.args[2]] if len(e.args) > 2 else [])
+                    if w:
+                        return S(sp.simplify(tr(w[0]) * tr(e.args[0]))) / S(sp.simplify(tr(w[0])))
+                    return S(sp.simplify(tr(e.args[0]))) / S(sp.Integer(1))
+                if nm == 'np.mean' and e.args:
+                    return S(sp.simplify(tr(e.args[0]))) / S(sp.Integer(1))
                 if nm == 'np.multiply':
                     return tr(e.args[0]) * tr(e.args[1])
                 if nm == 'np.power':
